@@ -1,4 +1,4 @@
-HOOK_COMMITS = []
+HOOK_COMMITS = ['ef609ce', '7110088', 'd1dc178', 'af3bff4', '854d330', '3bc5d99', 'de2fe24', '9cea780', 'e1698dc']
 ALL = ["C%02d" % i for i in range(1, 21)]
 def not_applicable(claimed):
     return [{"property_id": p, "reason": "check under construction in this build round (see DESIGN.md §10 staging); will be claimed once its theorem file and correspondence leg are committed"}
